@@ -242,6 +242,18 @@ func walkField(root []byte, m spec.Message, i int, sorted bool) (out string) {
 			byTag = "!TAGLOOKUP"
 		}
 	}
+	// FieldRaw (what generated enum and struct getters read from): the message data up to the end
+	// of the field, never beyond the data of the message, always inside it
+	if ok && sorted {
+		raw := m.FieldRaw(tag)
+		if len(raw) > 0 {
+			if t, _, err := spec.DecodeMessageTable(m.Raw()); err == nil {
+				if !Inside(root, raw) || len(raw) > int(t.DataSize()) || !bytes.HasPrefix(m.Raw(), raw) || !bytes.HasSuffix(raw, m.Field(tag)) {
+					byTag += "!FIELDRAW"
+				}
+			}
+		}
+	}
 	ghost := ""
 	if ok && sorted && i < 8 && m.Fields() <= 64 {
 		ghost = ghostProbe(m, int(tag)+256) + ghostProbe(m, (int(tag)+65280)%65536)
